@@ -285,6 +285,40 @@ static void long_move(const Fn *f, int align, int shift_el, int len_el) {
     if (memcmp(mv_area, exp, 4096)) { if (verbose) for (int i = 0; i < 4096; i++) if (mv_area[i] != exp[i]) { printf("first difference at dest%+ld: %02x instead of %02x\n", (long)(mv_area + i - base), mv_area[i], exp[i]); break; } report(f, "memmove-differs-from-copy-through-temporary", rel, cs); }
 }
 
+/* 16- and 32-bit operands that are not aligned to each other: src = dest + any number of bytes (two views into one byte buffer).  The memmove family must
+ * still equal a copy through a temporary; the memcpy family must report every intersection of the two byte ranges, also one of less than an element */
+static void byte_shift(const Fn *f, long shb, int len_el) {
+    int w = f->w; long len = (long)len_el * w;
+    unsigned char *base = mv_area + 1024;                /* dest, aligned */
+    unsigned char *src = base + shb;
+    unsigned char img[4096], exp[4096];
+    for (int i = 0; i < 4096; i++) mv_area[i] = img[i] = (unsigned char)(i * 7 + 3);
+    memcpy(exp, img, 4096); { unsigned char tmp[256]; memcpy(tmp, img + (src - mv_area), len); memcpy(exp + (base - mv_area), tmp, len); }
+    char cs[200]; snprintf(cs, sizeof cs, "%s bytes %ld %d -", f->name, shb, len_el);
+    long rc = 0; int faulted = 0; h_n = 0; n_cases++;
+    long N = f->dunit == 1 ? len : len_el;
+    if (sigsetjmp(jb, 1) == 0) { armed = 1; rc = ((ufn)f->addr)((long)base, N, (long)src, (long)len_el, BOSU, BOSU, 0, 0); armed = 0; } else faulted = 1;
+    rc = (int)rc;
+    int inter = shb != 0 && shb < len && -shb < len;
+    char rel[96]; snprintf(rel, sizeof rel, "byte-shift,%s,%s", shb % w ? "operands-misaligned-to-each-other" : "element-aligned", shb == 0 ? "same-place" : inter ? ((shb < 0 ? -shb : shb) > len - w ? "ranges-intersect-by-less-than-an-element" : "ranges-intersect") : "disjoint");
+    if (verbose) printf("rc=%ld handler=%d fault=%d (%s)\n", rc, h_n, faulted, rel);
+    if (faulted) { report(f, "fault", rel, cs); return; }
+    if (f->fam == F_MOVE) {
+        if (rc != 0) { report(f, "memmove-rejected", rel, cs); return; }
+        if (memcmp(mv_area, exp, 4096)) report(f, "memmove-differs-from-copy-through-temporary", rel, cs);
+        return;
+    }
+    if (shb == 0) return;                                 /* identical pointers: either outcome (the arena pass judges them) */
+    if (inter) {
+        if (rc == 0) { report(f, memcmp(mv_area, exp, 4096) ? "silently-corrupted-copy" : "overlap-not-detected", rel, cs); return; }
+        for (long i = 0; i < 4096; i++) if ((mv_area + i < base || mv_area + i >= base + len) && mv_area[i] != img[i] && !(mv_area + i >= src && mv_area + i < src + len)) { report(f, "write-outside-dest", rel, cs); return; }
+    } else {
+        if (rc == 404) { report(f, "disjoint-operands-rejected-as-overlapping", rel, cs); return; }
+        if (rc != 0) { report(f, "disjoint-valid-call-failed", rel, cs); return; }
+        if (memcmp(mv_area, exp, 4096)) report(f, "silently-corrupted-copy", rel, cs);
+    }
+}
+
 int main(int argc, char **argv) {
     setvbuf(stdout, NULL, _IOLBF, 0);
     void *L = dlopen(getenv("CAT_LIB"), RTLD_NOW | RTLD_GLOBAL);
@@ -299,7 +333,8 @@ int main(int argc, char **argv) {
     if (argc >= 7 && !strcmp(argv[1], "replay")) {
         verbose = 1; const Fn *f = NULL; for (int i = 0; i < NF; i++) if (!strcmp(fns[i].name, argv[2])) f = &fns[i];
         if (!f) return 2;
-        if (!strcmp(argv[3], "move")) { long_move(f, atoi(argv[4]), atoi(argv[5]), atoi(argv[6])); }
+        if (!strcmp(argv[3], "bytes")) { byte_shift(f, atol(argv[4]), atoi(argv[5])); }
+        else if (!strcmp(argv[3], "move")) { long_move(f, atoi(argv[4]), atoi(argv[5]), atoi(argv[6])); }
         else if (!strcmp(argv[3], "far")) { if (far_init()) { printf("cannot place the mappings\n"); return 2; } far_one(f, atoi(argv[4]), atoi(argv[5]), atol(argv[6]), atoi(argv[7])); }
         else if (f->fam == F_CCPY) { bosmode = atoi(argv[9]); g_c = atol(argv[10]); one_ccpy(f, atoi(argv[3]), strtoul(argv[4], 0, 10), atoi(argv[5]), atoi(argv[6]), atoi(argv[7]), atoi(argv[8])); }
         else { bosmode = argc > 9 ? atoi(argv[9]) : 0; one(f, atoi(argv[3]), strtoul(argv[4], 0, 10), atoi(argv[5]), atoi(argv[6]), atoi(argv[7]), atoi(argv[8])); }
@@ -307,6 +342,14 @@ int main(int argc, char **argv) {
         printf("VERDICT ok\n"); return 0;
     }
     if (argc < 5) return 2;
+    if (!strcmp(argv[1], "bytes")) {            /* bytes <maxlen_el> <shard> <n> */
+        int LM = atoi(argv[2]); long shard = atol(argv[3]), nsh = atol(argv[4]); long idx = 0;
+        for (int fi = 0; fi < NF; fi++) { const Fn *f = &fns[fi]; if ((f->fam != F_MOVE && f->fam != F_MEM) || f->w == 1) continue;
+            for (int len = 1; len <= LM; len++) { if ((idx++ % nsh) != shard) continue; for (long shb = -(long)len * f->w - 5; shb <= (long)len * f->w + 5; shb++) byte_shift(f, shb, len); } }
+        for (int i = 0; i < nsig; i++) printf("{\"t\":\"viol\",\"sig\":\"%s\",\"n\":%ld,\"case\":\"%s\"}\n", sigs[i], sigcnt[i], sigcase[i]);
+        printf("{\"t\":\"stat\",\"layouts\":%ld,\"zone_disjoint\":0,\"zone_must_report\":0,\"zone_either\":0,\"dest_unterminated\":0,\"violating\":%ld}\n", n_cases, n_viol);
+        return 0;
+    }
     if (!strcmp(argv[1], "far")) {              /* far <maxlen_el> <shard> <n> */
         int LM = atoi(argv[2]); long shard = atol(argv[3]), nsh = atol(argv[4]); long idx = 0;
         if (far_init()) { fprintf(stderr, "cannot place mappings 4 GiB apart\n"); return 2; }
